@@ -70,9 +70,14 @@ func c05LedgerWorker(w *core.WorkerCtx) {
 		if fv, err := world.Propose(n0, &f, "fund"); err == nil {
 			world.Deliver(n1, &fv, "net")
 		}
-		for _, amt := range amounts {
+		for ai, amt := range amounts {
+			// with and without data: a contract that carries spice is a transfer like any other
+			var data []byte
+			if (ai+round)%2 == 1 {
+				data = []byte("contract carrying a non-canonical amount")
+			}
 			// (1) local proposal
-			t := world.NewTrx(u[1], u[2].Addr, amt, nil)
+			t := world.NewTrx(u[1], u[2].Addr, amt, data)
 			_, err := world.Propose(n0, &t, "non-canonical amount")
 			if err == nil {
 				world.Logf("CreateLeaf accepted amount %s", ledger.MelStr(amt))
@@ -81,7 +86,7 @@ func c05LedgerWorker(w *core.WorkerCtx) {
 			world.Propose(n0, &m, "follow-up")
 			scan(world, n0, "CreateLeaf", amt)
 			// (2) gossip
-			t2 := world.NewTrx(u[1], u[2].Addr, amt, nil)
+			t2 := world.NewTrx(u[1], u[2].Addr, amt, data)
 			s := n1.Prev
 			var tip ledger.H
 			var wgt uint64
@@ -105,7 +110,7 @@ func c05LedgerWorker(w *core.WorkerCtx) {
 			for h := range src.Leaves {
 				stip, sw = h, src.Live[h].V.Weight
 			}
-			t3 := world.NewTrx(u[1], u[2].Addr, amt, nil)
+			t3 := world.NewTrx(u[1], u[2].Addr, amt, data)
 			sv := ledger.ForgeVertex(world.Sealers[1], t3, stip, stip, sw+1, world.Now())
 			stream = append(stream, &sv)
 			ln, loaded, _ := world.AddLoadedNode("L", stream, false)
@@ -146,10 +151,27 @@ func c05LedgerWorker(w *core.WorkerCtx) {
 		r.Nontriv(fmt.Sprintf("ledger/%s/%d.%d", entry, amt.Currency%7, amt.SupplementaryCurrency%13))
 	}
 	for i, amt := range amounts {
-		t := ledger.ForgeTrx(rig.Users[1], rig.Users[2].Addr, fmt.Sprintf("nc %d", i), nil, amt, time.Now().Add(-time.Minute))
-		p := &protobufcompiled.Transaction{Subject: t.Subject, Data: nil, Hash: t.Hash[:], CreatedAt: uint64(t.CreatedAt.UnixNano()), ReceiverAddress: t.ReceiverAddress, IssuerAddress: t.IssuerAddress,
+		var data []byte
+		if i%2 == 1 {
+			data = []byte("contract carrying a non-canonical amount")
+		}
+		t := ledger.ForgeTrx(rig.Users[1], rig.Users[2].Addr, fmt.Sprintf("nc %d", i), data, amt, time.Now().Add(-time.Minute))
+		p := &protobufcompiled.Transaction{Subject: t.Subject, Data: data, Hash: t.Hash[:], CreatedAt: uint64(t.CreatedAt.UnixNano()), ReceiverAddress: t.ReceiverAddress, IssuerAddress: t.IssuerAddress,
 			IssuerSignature: t.IssuerSignature, Spice: &protobufcompiled.Spice{Currency: amt.Currency, SupplementaryCurrency: amt.SupplementaryCurrency}}
 		rig.Notary.Propose(ctx, p)
+		if data != nil {
+			// a contract waits for its receiver: confirm it (countersigned) and reject a second one
+			c := t
+			ledger.CounterSign(&c, rig.Users[2])
+			cp := &protobufcompiled.Transaction{Subject: c.Subject, Data: data, Hash: c.Hash[:], CreatedAt: uint64(c.CreatedAt.UnixNano()), ReceiverAddress: c.ReceiverAddress, IssuerAddress: c.IssuerAddress,
+				IssuerSignature: c.IssuerSignature, ReceiverSignature: c.ReceiverSignature, Spice: &protobufcompiled.Spice{Currency: amt.Currency, SupplementaryCurrency: amt.SupplementaryCurrency}}
+			rig.Notary.Confirm(ctx, cp)
+			t4 := ledger.ForgeTrx(rig.Users[1], rig.Users[2].Addr, fmt.Sprintf("ncr %d", i), data, amt, time.Now().Add(-time.Minute))
+			p4 := &protobufcompiled.Transaction{Subject: t4.Subject, Data: data, Hash: t4.Hash[:], CreatedAt: uint64(t4.CreatedAt.UnixNano()), ReceiverAddress: t4.ReceiverAddress, IssuerAddress: t4.IssuerAddress,
+				IssuerSignature: t4.IssuerSignature, Spice: &protobufcompiled.Spice{Currency: amt.Currency, SupplementaryCurrency: amt.SupplementaryCurrency}}
+			rig.Notary.Propose(ctx, p4)
+			rig.Notary.Reject(ctx, svc.Sign(rig.Users[2], t4.Hash[:]))
+		}
 		ok := ledger.ForgeTrx(rig.Users[0], rig.Users[3].Addr, fmt.Sprintf("ok %d", i), []byte("c"), spice.Melange{}, time.Now().Add(-time.Minute))
 		okp, _ := transformers.TrxToProtoTrx(ok)
 		rig.Notary.Propose(ctx, okp)
@@ -160,7 +182,7 @@ func c05LedgerWorker(w *core.WorkerCtx) {
 		for h := range s.Leaves {
 			tip, wgt = h, s.Live[h].V.Weight
 		}
-		t2 := ledger.ForgeTrx(rig.Users[1], rig.Users[2].Addr, fmt.Sprintf("ncg %d", i), nil, amt, time.Now().Add(-time.Minute))
+		t2 := ledger.ForgeTrx(rig.Users[1], rig.Users[2].Addr, fmt.Sprintf("ncg %d", i), data, amt, time.Now().Add(-time.Minute))
 		v := ledger.ForgeVertex(rig.PeerAct[0], t2, tip, tip, wgt+1, time.Now().Add(-time.Second))
 		rig.Gossip.GossipVrx(ctx, &protobufcompiled.VrxMsgGossip{Vertex: gossip.VerifVertexToProtoVertex(&v)})
 		scanRig("gossip.GossipVrx", amt)
